@@ -165,7 +165,8 @@ Section Spec.
           end
       | LFloat s =>
           match sresolve t with
-          | TyDouble => match parse_f64 (sign_norm s) with Some b => Some (GDouble b) | None => None end   (* `-+x` is -(x) *)
+          | TyDouble => match parse_f64 (sign_norm (exp_norm s)) with Some b => Some (GDouble b) | None => None end
+              (* `-+x` is -(x); the exponent is an IDL integer constant (sign parity, 0x digits): Lit.exp_norm *)
           | _ => None
           end
       | LString s =>
